@@ -1,5 +1,6 @@
 #!/bin/sh
 # usage: verify_seed.sh <seed dir with patch.diff demo.py meta.json> <name> 
+# (run one at a time: the repository suite binds fixed ports and several suites side by side disturb each other)
 # Confirms in a scratch worktree of /repo HEAD: patch applies, suite still 164 passed, demo fails with / passes without.
 src=$1; name=$2
 wt=/tmp/vs-$name
